@@ -82,6 +82,7 @@ structure Obs where
   probes : List (Nat × Nat × Nat × List Bool) := []     -- (connector, checkpoint index, mask, flags after setVisibleDirections)
   visall : Option (Nat × Nat) := none                   -- (edges, disabled) of the whole router
   viscb : List (Nat × Nat) := []                        -- (phase, disabled) at the progress callbacks
+  skips : Option (List Nat) := none                     -- connectors with a "skipping checkpoint" diagnostic in this transaction
   deriving Inhabited
 
 structure St where
@@ -101,6 +102,7 @@ structure St where
   strict : List String := []      -- driver args: finding classes to report as SPECFAIL (else counted)
   taint : List (Nat × Nat) := []      -- (connector, disabled edges at its checkpoint vertices) after this transaction
   taintPrev : List (Nat × Nat) := []  -- the same after the previous transaction
+  skipped : List Nat := []            -- connectors whose current route() may stem from a search that skipped a checkpoint
   deriving Inhabited
 
 def rat! (s : String) : Rat := (num? s).getD 0
@@ -268,6 +270,89 @@ def checkVisibility (s : St) : St := Id.run do
     s := { s with divs := s!"step {s.stepNo}: {d} visibility edges disabled at a progress callback of phase {ph}, i.e. between two path searches (model: none, history_never_restricted)" :: s.divs }
   | none => pure ()
   return { s with taintPrev := s.taint, taint := taint }
+
+/-- all ways to choose ascending positions in `r` at which the checkpoints (in order) are reached: a
+    checkpoint's point can occur several times in `route()` (the orthogonal graph can hold a second
+    vertex at the position of a checkpoint vertex, and a later leg can pass the place again), and only
+    one occurrence is the end of the leg. Each result: 0 :: positions ++ [last index]. At most 64. -/
+def legBoundaries (r : Array P2) (cps : List P2) : List (List Nat) :=
+  let rec go (fuel : Nat) (pos : Nat) (cps : List P2) : List (List Nat) :=
+    match fuel, cps with
+    | _, [] => [[r.size - 1]]
+    | 0, _ => []
+    | fuel + 1, c :: rest =>
+      let occ := (List.range r.size).filter (fun j => j > pos && r[j]! == c)
+      (occ.flatMap (fun j => (go fuel j rest).map (fun t => j :: t))).take 64
+  (go (cps.length + 1) 0 cps).map (fun t => 0 :: t)
+
+/-- **Tie of the search-time restrictions** (`Props/C11Legs.search_sees_arrival / _departure`): when no
+    checkpoint was skipped, `route()` is the concatenation of the legs' paths, all of whose edges the
+    search saw enabled (`AStarPath` ignores disabled edges). For a decomposition of the route into legs
+    the first and the last edge of every leg are given to the model of `generateCheckpointsPath`
+    (directions by the model of `directionFrom`) and must be enabled in the graph the model says that
+    leg's search saw. DIVERGE when no decomposition passes. -/
+def checkLegDirections (s : St) : St := Id.run do
+  let mut s := s
+  for c in s.conns do
+    if c.cps.isEmpty || !restrictedConn c || s.skipped.contains c.id then continue
+    match lookup s.cur.routes c.id with
+    | none => pure ()
+    | some rl =>
+      let r := rl.toArray
+      if r.size < 2 then continue
+      let n := c.cps.length
+      let srcK : VKey := (1000 + c.id, 1, 0, 0)
+      let dstK : VKey := (1000 + c.id, 0, 0, 0)
+      let cpKey (k : Nat) : VKey := let p := (c.cps[k]?).getD ⟨0, 0⟩; (1000 + c.id, 2 + k, p.x, p.y)
+      -- vertex of route point j inside leg number i (0-based) spanning positions lb..le: the leg's two ends are
+      -- the vertices of the protocol; a point in between is some other vertex even if it lies at the position
+      -- of a checkpoint (second vertex at the same place): the model then leaves its edges enabled
+      let vkey (i lb le j : Nat) : VKey :=
+        if j == lb then (if i == 0 then srcK else cpKey (i - 1))
+        else if j == le then (if i == n then dstK else cpKey i)
+        else (0, 0, r[j]!.x, r[j]!.y)
+      let mkEdge (i lb le x y : Nat) : AdaptaVerif.Model.CheckpointLegs.Edge VKey :=
+        let a := r[x]!
+        let b := r[y]!
+        ⟨vkey i lb le x, vkey i lb le y, AdaptaVerif.Model.CheckpointLegs.directionOf AdaptaVerif.Model.CheckpointLegs.dirEps a.x a.y b.x b.y,
+         AdaptaVerif.Model.CheckpointLegs.directionOf AdaptaVerif.Model.CheckpointLegs.dirEps b.x b.y a.x a.y, false⟩
+      let cps : List (AdaptaVerif.Model.CheckpointLegs.Cp VKey) :=
+        (List.range n).map (fun k => let m := (c.cpd[k]?).getD (15, 15); ⟨cpKey k, m.1, m.2⟩)
+      -- the used edges that the model says were disabled, for one decomposition
+      let bad (bs : List Nat) : List String := Id.run do
+        -- legs: (bs[i], bs[i+1]); the first edge (b, b+1) and the last edge (e-1, e) of each
+        let legsIdx := (List.range (n + 1)).map (fun i => ((bs[i]?).getD 0, (bs[i+1]?).getD 0))
+        -- the last leg as a single segment may be the "no valid path" jump to dst: not an edge
+        let usable := legsIdx.zipIdx.filter (fun ((b, e), i) => b < e && !(i == n && e == b + 1))
+        -- reading A: the points of the leg are its path vertices; reading B (only for a straight leg): the leg
+        -- is ONE edge and the points in between were inserted into route() afterwards (crossing detection splits
+        -- segments at points shared with other connectors) - same directions, but the edge then joins the two
+        -- protocol vertices directly (see departure_mask_overridden_on_shared_edge)
+        let straight (b e : Nat) : Bool := (List.range (e - b)).all (fun t => pointOnSegment r[b]! r[e]! r[b + t]!)
+        let g0 := usable.flatMap (fun ((b, e), i) =>
+          [mkEdge i b e b (b + 1), mkEdge i b e (e - 1) e] ++
+          (if e > b + 1 && straight b e then [mkEdge i b e b e, mkEdge i b e b e] else [mkEdge i b e b (b + 1), mkEdge i b e (e - 1) e]))
+        let res := AdaptaVerif.Model.CheckpointLegs.generateCheckpointsPath (fun _ _ _ => true) srcK dstK cps g0
+        let mut out : List String := []
+        let mut pos := 0
+        for ((b, e), i) in usable do
+          match res.legs[i]? with
+          | some lr =>
+            let dis (k : Nat) : Bool := match lr.seen[pos + k]? with | some ed => ed.disabled | none => false
+            if (dis 0 || dis 1) && (dis 2 || dis 3) then
+              for (off, what, x, y) in [(0, "leaves", b, b + 1), (1, "arrives", e - 1, e)] do
+                if dis off then out := out ++ [s!"leg {i + 1} {what} by the edge {showP r[x]!} -> {showP r[y]!}"]
+          | none => pure ()
+          pos := pos + 4
+        return out
+      let decs := legBoundaries r c.cps
+      if decs.isEmpty then continue
+      s := bump s "legdir.conns"
+      s := bump s "legdir.legs" (n + 1)
+      if decs.length > 1 then s := bump s "legdir.ambiguous"
+      if !(decs.any (fun bs => (bad bs).isEmpty)) then
+        s := { s with divs := s!"step {s.stepNo}: connector {c.id} (masks {c.cpd}): in every decomposition of route() into legs some leg uses an edge that the model of generateCheckpointsPath says is disabled during that leg's search (search_sees_arrival/_departure), e.g. {bad (decs.headD [])}; route() {rl.map showP}" :: s.divs }
+  return s
 
 structure EndObs where
   hyper : Bool         -- the connector has a junction end (member of a hyperedge)
@@ -579,6 +664,14 @@ def endStep (s : St) : St :=
   let s := checkJunctionMoves s
   let s := checkPins s
   let s := checkVisibility s
+  -- which routes may stem from a search that skipped a checkpoint: a diagnostic in this transaction sets
+  -- the mark, a changed route() without a diagnostic clears it
+  let s := match s.cur.skips with
+    | some sk =>
+      let cleared := s.skipped.filter (fun c => lookup s.cur.routes c == lookup s.prev.routes c)
+      { s with skipped := sk ++ cleared.filter (fun c => !sk.contains c) }
+    | none => { s with skipped := s.conns.map (·.id) }
+  let s := checkLegDirections s
   let s := checkEnds s
   let s := checkOthers s
   { s with prev := s.cur, cur := {}, stats := bumpStats s.stats "steps" 1 }
@@ -612,6 +705,7 @@ def feed (s : St) (l : Array String) : St :=
   | "probe" =>
     let n := nat! l[4]!
     { s with cur := { s.cur with probes := s.cur.probes ++ [(nat! l[1]!, nat! l[2]!, nat! l[3]!, (List.range n).map (fun i => l[5 + i]! == "1"))] } }
+  | "skips" => { s with cur := { s.cur with skips := some ((List.range (nat! l[1]!)).map (fun i => nat! l[2 + i]!)) } }
   | "visall" => { s with cur := { s.cur with visall := some (nat! l[1]!, nat! l[2]!) } }
   | "viscb" => { s with cur := { s.cur with viscb := (List.range (nat! l[1]!)).map (fun i => (nat! l[2 + 2 * i]!, nat! l[3 + 2 * i]!)) } }
   | "op" =>
